@@ -22,6 +22,10 @@ def make_input(path, spec):
     for i, c in enumerate(spec['input']):
         if c == 'S':
             v = z3.BitVec('b%d' % i, 8); syms[i] = v; cells.append(v)
+        elif isinstance(c, (list, tuple)) and c[0] == 'nib':
+            # high nibble fixed, low nibble symbolic (structure bits of a TL byte concrete, length nibble free)
+            v = z3.BitVec('b%d' % i, 8); syms[i] = v
+            cells.append(z3.Concat(z3.BitVecVal(c[1], 4), z3.Extract(3, 0, v)))
         else:
             cells.append(int(c))
     a = path.alloc(max(len(cells), 1), 'input')
@@ -30,9 +34,21 @@ def make_input(path, spec):
     return a, len(cells), syms
 
 
+def cell_value(m, syms, i, c):
+    if c == 'S':
+        return m.eval(z3.BitVec('b%d' % i, 8), model_completion=True).as_long()
+    if isinstance(c, (list, tuple)) and c[0] == 'nib':
+        return (c[1] << 4) | (m.eval(z3.BitVec('b%d' % i, 8), model_completion=True).as_long() & 0xf)
+    return int(c)
+
+
 def run_one(spec, prefix, limits=Limits):
     """Execute one path. Returns (kind, info, path, concrete input or None)."""
     w = _W
+    if spec.get('max_steps'):
+        class L(Limits):
+            max_steps = spec['max_steps']
+        limits = L
     p = Path(w, prefix, limits)
     pol = spec.get('alloc_policy')
     if pol == 'none': p.alloc_policy = 'none'
@@ -52,8 +68,7 @@ def run_one(spec, prefix, limits=Limits):
     if kind in ('fail', 'panic', 'oob', 'budget', 'alloc') or spec.get('want_models'):
         try:
             m = p.feasible_model()
-            model_input = bytes((m.eval(syms[i], model_completion=True).as_long() if i in syms else int(c))
-                                for i, c in enumerate(spec['input']))
+            model_input = bytes(cell_value(m, syms, i, c) for i, c in enumerate(spec['input']))
         except PathEnd as e:
             if kind != 'ok': kind, info = 'infeasible', 'terminal on an infeasible path (%s)' % info
     return kind, info, p, model_input
@@ -84,7 +99,7 @@ def explore_subtree(args):
             if len(res['samples']) < 2 and kind == 'ok':
                 try:
                     m = p.feasible_model()
-                    ex = bytes((m.eval(z3.BitVec('b%d' % i, 8), model_completion=True).as_long() if c == 'S' else int(c)) for i, c in enumerate(spec['input']))
+                    ex = bytes(cell_value(m, None, i, c) for i, c in enumerate(spec['input']))
                     res['samples'].append({'decisions': len(p.trace), 'result': info, 'example_input_hex': ex.hex(), 'ir_steps': p.steps})
                 except Exception:
                     pass
